@@ -124,7 +124,11 @@ fn walk(b: &[u8], h: &Hdr, off: u64, len: u64, depth: u32, out: &mut Vec<E>, n_d
     }
     Ok(())
 }
-pub fn parse_archive(b: &[u8]) -> Result<Parsed, String> {
+/// library-written archives: the three header statistics must equal the recomputed values
+pub fn parse_archive(b: &[u8]) -> Result<Parsed, String> { parse_archive_opt(b, false) }
+/// foreign archives: a statistic of 0 means "unknown" (PMTiles v3) and is accepted
+pub fn parse_archive_foreign(b: &[u8]) -> Result<Parsed, String> { parse_archive_opt(b, true) }
+fn parse_archive_opt(b: &[u8], unknown_ok: bool) -> Result<Parsed, String> {
     let hdr = parse_header(b)?;
     let h = &hdr;
     if h.root_off < 127 { return Err("root directory overlaps the header".into()); }
@@ -149,9 +153,9 @@ pub fn parse_archive(b: &[u8]) -> Result<Parsed, String> {
         addressed += e.run as u64;
         for k in 0..e.run as u64 { tiles.insert(e.id + k, (e.off, e.len)); }
     }
-    if h.n_addr != addressed { return Err(format!("header says {} addressed tiles, directories address {}", h.n_addr, addressed)); }
-    if h.n_entries != entries.len() as u64 { return Err(format!("header says {} tile entries, directories hold {}", h.n_entries, entries.len())); }
-    if h.n_contents != contents.len() as u64 { return Err(format!("header says {} tile contents, directories reference {}", h.n_contents, contents.len())); }
+    if h.n_addr != addressed && !(unknown_ok && h.n_addr == 0) { return Err(format!("header says {} addressed tiles, directories address {}", h.n_addr, addressed)); }
+    if h.n_entries != entries.len() as u64 && !(unknown_ok && h.n_entries == 0) { return Err(format!("header says {} tile entries, directories hold {}", h.n_entries, entries.len())); }
+    if h.n_contents != contents.len() as u64 && !(unknown_ok && h.n_contents == 0) { return Err(format!("header says {} tile contents, directories reference {}", h.n_contents, contents.len())); }
     if h.clustered == 1 {
         let mut hi = 0u64;
         for e in &entries { if e.off < hi && !contents.contains(&(e.off, e.len)) { return Err("clustered flag set but offsets go backwards".into()); } if e.off >= hi { hi = e.off; } }
